@@ -7,7 +7,11 @@ workers: read_html (.html file), read_mhtml (multipart/related built with the st
 read_epub (own minimal EPUB, body as a chapter) and msg_email_extractor._html_to_text (the helper the
 MSG extractor applies to an HTML body; it is called directly — no synthetic .msg container — and
 _looks_like_html() of the same body is recorded so the evidence says how many bodies would have taken
-that path in a real .msg).  EML and mbox are not carriers: they return an HTML-only body as raw HTML
+that path in a real .msg).  The MHTML root part is text/html (quoted-printable / base64 / 8bit) or, in about 3 of 10 archives,
+application/xhtml+xml / application/xml sent 8bit: no part is labelled text/html then and the library
+finds the document by searching the raw archive bytes (a counting stand-in for
+mhtml_extractor._RE_RAW_HTML proves that path was taken; the body is then a complete <html>..</html>
+document).  EML and mbox are not carriers: they return an HTML-only body as raw HTML
 (documented in the README), no removal is claimed there.
 
 Oracle (parent, pure function of ground truth + observation): tokenise get_full_text(), the unit
@@ -53,6 +57,30 @@ def work_init(init: dict) -> None:
     from sharepoint2text.parsing.extractors.mhtml_extractor import read_mhtml
 
     _X.update(read_html=read_html, read_mhtml=read_mhtml, read_epub=read_epub, msgx=msgx)
+    # monitor: the last-resort search of the raw archive bytes (mhtml_extractor._RE_RAW_HTML) counts its calls
+    from sharepoint2text.parsing.extractors import mhtml_extractor as mx
+    pat = getattr(mx, "_RE_RAW_HTML", None)
+    if pat is not None and not isinstance(pat, _CountingPattern):
+        mx._RE_RAW_HTML = _CountingPattern(pat)
+
+
+_RAW_SEARCH = {"hits": 0}
+
+
+class _CountingPattern:
+    """Stands in for a compiled pattern of the library and counts how often it is used."""
+
+    def __init__(self, pat):
+        self._pat = pat
+
+    def __getattr__(self, name):
+        attr = getattr(self._pat, name)
+        if name in ("search", "match", "finditer", "findall", "sub", "fullmatch"):
+            def counted(*a, **k):
+                _RAW_SEARCH["hits"] += 1
+                return attr(*a, **k)
+            return counted
+        return attr
 
 
 def carrier_bytes(carrier: str, doc: str, params: dict) -> bytes:
@@ -100,7 +128,11 @@ def work(case: dict) -> dict:
         else:
             data = carrier_bytes(carrier, doc, params)
             fn = _X["read_" + carrier]
+            if carrier == "mhtml":
+                _RAW_SEARCH["hits"] = 0
             res = list(fn(io.BytesIO(data), path="case." + carrier))
+            if carrier == "mhtml":
+                obs["raw_search"] = _RAW_SEARCH["hits"]
             obs["n_results"] = len(res)
             full = "\n".join(r.get_full_text() for r in res)
             units = [u.get_text() for r in res for u in r.iterate_units()]
@@ -202,7 +234,9 @@ def carrier_params(rng, carrier: str) -> dict:
     if carrier == "html":
         return {"bom": rng.random() < 0.15}
     if carrier == "mhtml":
-        return {"cte": rng.choice(("quoted-printable", "quoted-printable", "base64", "8bit")), "related": rng.random() < 0.7}
+        # root: media type of the root part; anything but text/html sends the library to its raw search of the archive bytes
+        return {"cte": rng.choice(("quoted-printable", "quoted-printable", "base64", "8bit")), "related": rng.random() < 0.7,
+                "root": rng.choice(("text/html",) * 7 + ("application/xhtml+xml", "application/xhtml+xml", "application/xml"))}
     if carrier == "epub":
         return {"media": rng.choice(("xhtml", "xhtml", "html")), "dir": rng.choice(("OEBPS/", "OEBPS/", "")),
                 "deflate": rng.random() < 0.8, "second": rng.random() < 0.3}
@@ -224,8 +258,10 @@ def build_cases(run, bodies, ref_share: float = 1.0) -> tuple[list[dict], dict]:
             params = carrier_params(rng, carrier)
             tokens = dict(body.tokens)
             d, t, rf = doc, twin, ref
-            if carrier == "epub":
-                d = epub_doc(d, body.wrapper)
+            if carrier == "mhtml" and params["root"] != "text/html" and body.risky == "unterminated-trailing-construct":
+                params["root"] = "text/html"        # a broken-off document has no </html>: nothing for a raw search to find
+            if carrier == "epub" or (carrier == "mhtml" and params["root"] != "text/html"):
+                d = epub_doc(d, body.wrapper)       # a complete (X)HTML document around fragments
                 t = epub_doc(t, body.wrapper) if t else None
                 rf = epub_doc(rf, body.wrapper) if rf else None
                 if params.get("second"):
@@ -298,6 +334,12 @@ def evaluate(run, bodies, cases, meta, results) -> None:
             run.case(f"{carrier}|{role}|{','.join(feats)}|{outcome}",
                      sample={"carrier": carrier, "role": role, "risky": body.risky, "doc": meta[cid]["doc"][:300], "outcome": outcome})
             run.count(f"cases_{carrier}")
+            if carrier == "mhtml":
+                run.count("mhtml_root_" + meta[cid]["params"].get("root", "text/html"))
+                if obs.get("raw_search"):
+                    run.count("mhtml_raw_search_path_taken")
+                    if role == "main" and body.features & {"c:raw:document-write", "c:normal:full-document", "c:comment:page-skeleton"}:
+                        run.count("mhtml_raw_search_with_document_inside_removed_content")
             if carrier == "msg" and role != "ref":
                 run.count("msg_looks_like_html_" + str(bool(obs.get("looks_like_html"))).lower())
             if carrier == "epub" and role == "main":
@@ -398,6 +440,8 @@ def main(run) -> None:
             run.require(f"risky_pairs_{f}_{carrier}", c.get(f"risky_pairs_{f}_{carrier}", 0), 10)
     for cls in "bvr":
         run.require(f"tokens_judged_{cls}", c.get(f"tokens_judged_{cls}", 0), run.n(3000, 40000))
+    run.require("mhtml_raw_search_path_taken", c.get("mhtml_raw_search_path_taken", 0), run.n(300, 5000))
+    run.require("mhtml_raw_search_with_document_inside_removed_content", c.get("mhtml_raw_search_with_document_inside_removed_content", 0), run.n(15, 300))
     run.require("msg_bodies_that_look_like_html", c.get("msg_looks_like_html_true", 0), run.n(600, 8000))
     need = [f"pos:{p}" for p in G.POSITIONS] + [f"attr:{a}" for a in G.ATTR_KINDS] + [f"case:{k}" for k in G.CASE_KINDS] + \
            [f"close:{k}" for k in G.CLOSE_KINDS] + [f"c:raw:{k}" for k in G.RAW_KINDS] + [f"c:normal:{k}" for k in G.NORMAL_KINDS] + \
